@@ -43,12 +43,17 @@ def make_groups(rng):
         kind = rng.choice(["plain", "plain", "merge", "single"] if len(ls) == 1 else ["plain", "plain", "merge"])
         name = f"g{gi}"
         gi += 1
+        given = list(ls)
+        if kind != "single" and rng.random() < 0.25:
+            # the label list as a user may write it: repeated entries, any order (the group is the SET of its labels)
+            given = given + [rng.choice(ls) for _ in range(rng.randint(1, 2))]
+            rng.shuffle(given)
         if kind == "plain":
-            groups[name] = LabelGroup(ls)
+            groups[name] = LabelGroup(given)
         elif kind == "merge":
-            groups[name] = LabelMergeGroup(ls)
+            groups[name] = LabelMergeGroup(given)
         else:
-            groups[name] = LabelGroup(ls, single_instance=True)
+            groups[name] = LabelGroup(given, single_instance=True)
         spec[name] = (kind, ls)
     return SegmentationClassGroups(groups), spec
 
@@ -111,6 +116,26 @@ def run(ctx):
         for _ in range(rng.randint(0, 5)):
             flat[rng.randrange(flat.size)] = rng.choice([0, 1, 2, 3, 4, 5, 6])
         groups, spec = make_groups(rng) if (dt != "uint8" or rng.random() < 0.7) else make_groups_wide(rng)
+        if rng.random() < 0.12:
+            # a scheme with MANY labels per group spread over a wide id range (anatomical atlases), on a small array; the array's
+            # labels repeat (a label map is not a set), some labels of each group are absent
+            from panoptica.utils.segmentation_class import SegmentationClassGroups
+            from panoptica.utils.label_group import LabelGroup, LabelMergeGroup
+            dt = "uint16"
+            ga = sorted(rng.sample(range(1, 40), 21) + [2000 + rng.randint(0, 50)])
+            gb = sorted(set(rng.sample(range(50, 400), 12) + [3000]) - set(ga))
+            kinds = [rng.choice(["plain", "merge"]), rng.choice(["plain", "plain", "merge"])]
+            spec = {"atlas_a": (kinds[0], ga), "atlas_b": (kinds[1], gb)}
+            groups = SegmentationClassGroups({n: (LabelGroup(ls) if k == "plain" else LabelMergeGroup(ls)) for n, (k, ls) in spec.items()})
+            pool = [0, 0] + rng.sample(ga, 3) + rng.sample(gb, 3)
+            shape = (rng.randint(6, 12), rng.randint(6, 12))
+            ref = np.array([rng.choice(pool) for _ in range(shape[0] * shape[1])], dtype=dt).reshape(shape)
+            pred = ref.copy()
+            flat = pred.reshape(-1)
+            for _k in range(rng.randint(0, 6)):
+                flat[rng.randrange(flat.size)] = rng.choice(pool)
+            if it == "semantic":
+                it = "unmatched"
         cfg = gen_cfg(rng, it)
         if rng.random() < 0.35:
             # a decision threshold that imperfect instances fail (the filter must act in every group but a single-instance one,
@@ -185,15 +210,34 @@ def run(ctx):
             if not isinstance(o_bad, tuple):
                 ctx.violation(f"input without background voxels containing label {undefined} that belongs to no group was evaluated instead of rejected",
                               {**case, "groups": {"a": ["plain", gl[:2]], "b": ["plain", gl[2:]]}, "bad_array": which, "bad": badarr, "full": full})
+        # malformed stream: two group names that collide in the scheme's (case-insensitive, string) namespace: only the later group
+        # exists, so the labels of the earlier one belong to no group and input containing them must be rejected
+        if rng.random() < 0.15:
+            from panoptica.utils.segmentation_class import SegmentationClassGroups
+            from panoptica.utils.label_group import LabelGroup
+            n1, n2 = rng.choice([("Lesion", "lesion"), ("kidney_L", "kidney_l"), (1, "1"), ("A", "a")])
+            gc = SegmentationClassGroups({n1: LabelGroup([1, 2]), n2: LabelGroup([3]), "rest": LabelGroup([4, 5, 6])})
+            arr = np.array([rng.choice([0, 3, 4, 5]) for _ in range(pred.size)], dtype=pred.dtype).reshape(pred.shape)
+            badarr = arr.copy()
+            badarr.reshape(-1)[rng.randrange(badarr.size)] = rng.choice([1, 2])
+            cfg3 = dict(cfg); cfg3["groups"] = gc
+            which = rng.choice(["pred", "ref"])
+            o_bad = impl.evaluate(impl.make_evaluator(cfg3), badarr if which == "pred" else arr.copy(), arr.copy() if which == "pred" else badarr)
+            ctx.bump("malformed-colliding-names")
+            if not isinstance(o_bad, tuple):
+                ctx.violation(f"groups {n1!r} and {n2!r} collide (only the later exists: {sorted(o_bad.keys())}); input with a label of the dropped "
+                              "group was evaluated instead of rejected",
+                              {"cfg": cfgj, "colliding_names": [str(n1), str(n2)], "int_key": isinstance(n1, int), "bad_array": which, "bad": badarr, "full": arr})
         # malformed stream: a label outside all groups must be rejected
         if rng.random() < 0.3:
+            alien = next(l for l in (9, 10, 11, 7, 8, 250, 251) if all(l not in ls_ for _, ls_ in spec.values()))
             bad_p = pred.copy()
-            bad_p.reshape(-1)[rng.randrange(bad_p.size)] = 9
+            bad_p.reshape(-1)[rng.randrange(bad_p.size)] = alien
             which = rng.choice(["pred", "ref"])
             o_bad = impl.evaluate(impl.make_evaluator(cfg), bad_p if which == "pred" else pred.copy(), ref.copy() if which == "pred" else bad_p.astype(ref.dtype))
             ctx.bump("malformed")
             if not isinstance(o_bad, tuple):
-                ctx.violation("input with a label (9) that belongs to no group was evaluated instead of rejected", {**case, "bad_array": which, "bad": bad_p})
+                ctx.violation(f"input with a label ({alien}) that belongs to no group was evaluated instead of rejected", {**case, "bad_array": which, "bad": bad_p})
 
 
 def groups_from_spec(spec):
@@ -208,6 +252,17 @@ def groups_from_spec(spec):
 def replay(path):
     common.serial_pool()
     d = json.loads(open(path).read())
+    if "colliding_names" in d:
+        from panoptica.utils.segmentation_class import SegmentationClassGroups
+        from panoptica.utils.label_group import LabelGroup
+        n1, n2 = d["colliding_names"]
+        if d.get("int_key"):
+            n1 = int(n1)
+        gc = SegmentationClassGroups({n1: LabelGroup([1, 2]), n2: LabelGroup([3]), "rest": LabelGroup([4, 5, 6])})
+        bad, full = common.arr_from_json(d["bad"]), common.arr_from_json(d["full"])
+        o = impl.evaluate(impl.make_evaluator({**d["cfg"], "groups": gc}), bad if d["bad_array"] == "pred" else full, full if d["bad_array"] == "pred" else bad)
+        print("groups that exist:", list(gc.keys()) if hasattr(gc, "keys") else "?", "| evaluation:", o[:2] if isinstance(o, tuple) else "returned results for " + str(sorted(o.keys())))
+        return 0 if isinstance(o, tuple) else 1
     if "groups" not in d or "cfg" not in d:
         print("case:", json.dumps(d)[:600])
         return 1
